@@ -399,6 +399,7 @@ CHECKS["C05"] = dict(
           dict(name="class-B", test="^(TestProbes|TestClassB)$", quick=dict(n=20, procs=1, batch=20, timeout=600), thorough=dict(n=800, procs=2, batch=50, timeout=3000)),
           dict(name="first-contact", test="^TestFirstContactConcurrent$", kind="plain", quick=dict(n=3000, procs=1, timeout=600), thorough=dict(n=48000, procs=8, timeout=3000)),
           dict(name="class-J", test="^TestClassJ$", quick=dict(n=60, procs=3, batch=20, timeout=600), thorough=dict(n=3000, procs=6, batch=50, timeout=3000)),
+          dict(name="class-L", test="^TestClassL$", quick=dict(n=40, procs=2, batch=20, timeout=600), thorough=dict(n=2000, procs=4, batch=50, timeout=3000)),
           dict(name="class-C", test="^TestClassC$", quick=dict(n=30, procs=2, batch=15, timeout=600), thorough=dict(n=1500, procs=3, batch=50, timeout=3000)),
           dict(name="class-D", test="^TestClassD$", quick=dict(n=30, procs=2, batch=15, timeout=600), thorough=dict(n=1500, procs=3, batch=50, timeout=3000))],
 )
